@@ -244,7 +244,7 @@ class Printer:
             _, kind, var, cases = s
             self.emit(ind, f"{kind} ({fmt_value(var, 0, o)}) {{", s, "block")
             for (val, text) in cases:
-                self.emit(ind + 1, "default:" if val is None else f"case {fmt_value(val, 0, o)}:")
+                self.emit(ind + 1, "default:" if val is None else f"case {fmt_value(val, 0, o)}:", (val, text), "msgcase")
                 self.emit(ind + 2, fmt_value(text, 0, o))
             self.emit(ind, "}")
         elif t == "forever":
